@@ -13,6 +13,7 @@ import Uft.Model.Patch
       | …
         -> "<mod> | <mod> | … | stats <total> <failed> <skipped> <nomatch>"
            mod = "tramp=<hex> tsize=<n> mid=<perms> post=<perms> <codehex>"
+   dt <fixed 0|1> <sect|~> <fallback> {<name> <lg 0|1> <first 9 bytes hex>}…       -> "<type name>"
    perms: one char per page of the module's region (npages + 1 pages from `start`):
           x = r-x, W = rwx, w = rw-, r = r--, - = none
 -/
@@ -157,11 +158,35 @@ def handleFlow (ws : List String) : String :=
     | _, _, _, _, _ => "bad-op"
   | _ => "bad-op"
 
+def showTy : DynType → String
+  | .none => "none" | .pg => "pg" | .fentry => "fentry" | .fentryNop => "fentry-nop"
+  | .xray => "xray" | .patchable => "fpatchable"
+
+/-- each symbol's first 9 bytes are laid out back to back: symbol i at 16*i -/
+def parseDSyms : List String → Nat → Code → List DSym → Option (Code × List DSym)
+  | [], _, c, ss => some (c, ss.reverse)
+  | n :: lg :: bs :: rest, i, c, ss =>
+    match str n, parseHexBytes bs with
+    | some n, some bs =>
+      let chunk := (bs ++ List.replicate 16 0).take 16
+      parseDSyms rest (i + 1) (c ++ chunk) ({ name := n, addr := 16 * i, lg := lg == "1" } :: ss)
+    | _, _ => none
+  | _, _, _, _ => none
+
+def handleDt : List String → String
+  | fx :: sect :: fb :: recs =>
+    match parseTy fb, parseDSyms recs 0 [] [] with
+    | some fb, some (c, ss) =>
+      showTy (detectTypeG (fx == "1") (if sect = "~" then none else parseTy sect) c ss fb)
+    | _, _ => "bad-op"
+  | _ => "bad-op"
+
 def handle : List String → String
   | "pl" :: r => handlePl r
   | "pf" :: r => handlePf r
   | "uf" :: r => handleUf r
   | "flow" :: r => handleFlow r
+  | "dt" :: r => handleDt r
   | _ => "bad-op"
 
 def model : Model := { σ := Unit, init := (), step := fun _ ws => ((), handle ws) }
